@@ -77,6 +77,7 @@ from halmos.logs import (
     error,
     logger,
     logger_unique,
+    reset_unique_logs,
     warn,
     warn_code,
 )
@@ -1674,6 +1675,9 @@ def run_tests(
         selector = ctx.method_identifiers[funsig]
         fun_info = FunctionInfo(ctx.name, funsig.split("(")[0], funsig, selector)
         try:
+            # warnings that are printed once (e.g. --depth, loop bounds of invariant targets) are due for every test
+            reset_unique_logs()
+
             test_config = with_devdoc(args, funsig, ctx.contract_json)
 
             if debug_config:
